@@ -25,7 +25,7 @@ from sim.world import Session, classify, exc_detail, exc_signature, reference_wo
 PROPERTY = "C12"
 SESSIONS = {"quick": 400, "thorough": 12000}
 BUDGET_S = {"quick": 80, "thorough": 1500}
-CAP_S = {"quick": 90, "thorough": 240}
+CAP_S = {"quick": 240, "thorough": 480}
 RULE = ("one session = one shuffle configuration (table, key columns/dtypes, n_in, n_out, max_branch, method, ignore_index, "
         "optional output subset, optional twin frame, schedules, optional partd fault); distinct = distinct digest of the whole spec; "
         "non-trivial = the shuffle moved rows between >1 input and >1 output partitions and all invariants were evaluated")
